@@ -640,14 +640,14 @@ def run(ctx: Ctx) -> None:
             mc("LBSpec N=2, all keyword sets", "b2", 4, n=2, rich="FALSE", maxev=2, allkw="TRUE", maxh=1)
             mc("LBSpec N=2, valid cuts, 2 handles per construct_dag block", "b2s", 3, n=2, rich="FALSE", maxev=2,
                allkw="FALSE", maxh=2)
-            mc("LBSpec N=2, valid cuts, user cache on the first / last / all functions", "b2c", 4, modes='{"call"}', ucache="TRUE",
+            mc("LBSpec N=2, valid cuts, user cache (first / all functions flagged)", "b2c", 4, modes='{"call"}', ucache="TRUE",
                n=2, rich="FALSE", maxev=2, allkw="FALSE", maxh=1)
             exports = [("LUSpec N=2", dict(n=2, rich="FALSE"), "u2", "3g", "full")]
         else:
             mc("LBSpec N=2 rich, all keyword sets, 3 evaluates", "b2r", 3, n=2, rich="TRUE", maxev=3, allkw="TRUE", maxh=1)
             mc("LBSpec N=2 rich, valid cuts, 2 handles per construct_dag block", "b2s", 3, n=2, rich="TRUE", maxev=2,
                allkw="FALSE", maxh=2)
-            mc("LBSpec N=2 rich, valid cuts, user cache on the first / last / all functions", "b2c", 3, ucache="TRUE",
+            mc("LBSpec N=2 rich, valid cuts, user cache (first / all functions flagged)", "b2c", 3, ucache="TRUE",
                n=2, rich="TRUE", maxev=2, allkw="FALSE", maxh=1)
             mc("LBSpec N=3, valid cuts, pipeline()/run()/func() convention", "b3", 2, heap="2g", nshards=3, modes='{"call"}',
                n=3, rich="FALSE", maxev=2, allkw="FALSE", maxh=1)
